@@ -1,5 +1,6 @@
 import OdfProofs.Traverse
 import OdfProofs.TableHist
+import OdfProofs.Heap
 
 /-!
 # C08 — table getters return correctly addressed, expanded, detached copies
@@ -7,9 +8,14 @@ import OdfProofs.TableHist
 What a model can carry: the *addressing* and *expansion* clauses.  Model:
 `OdfModel/Traverse.lean` (the two branches of `Row.traverse`, `Table._yield_odf_rows`) and
 `getValue` of `OdfModel/Table.lean`.
-PARTIAL: "detached" (mutating a returned object changes nothing) is about object identity; a
-pure model has no aliasing to get wrong, so that clause is decided by the correspondence run
-only (every getter, every mutation of the returned object, table serialisation before/after).
+"detached" (mutating a returned object changes nothing) is about object identity: a pure model
+has no aliasing to get wrong.  It is carried by the ownership heap of `OdfModel/Heap.lean` (the
+model of C10): the table is owner 0, every object a getter returns is an owner of its own, born
+with fresh objects only; a modification of a returned object is a sequence of `alloc` / `write`
+steps of that owner.  The theorems below are about every such history; the correspondence walks
+the live Python objects (wrappers, their dicts and lists, lxml trees) after the read and after
+each modification and replays what it saw on the model (`hp`), which refuses a step that
+changes an object of another owner and has no object with two owners.
 -/
 namespace Odf.C08
 open Odf.Rle Odf.Table Odf.Grid
@@ -43,6 +49,69 @@ theorem get_value_outside (t : Tbl) (h : Inv t) (x y : Int)
   simp only
   rw [getD_of_length_le (absT t).rows _ [] hy]
   rfl
+
+/-! ## detached copies (ownership heap) -/
+section heap
+open Odf.Heap
+variable {V : Type}
+
+/-- **modifying returned objects never changes the table**: after any history of modifications of
+    returned objects (no step applied to the table, owner 0), every mutable object of the table
+    holds what it held -/
+theorem returned_copies_detached (mods : List (Op V)) (w w' : World V)
+    (h : Heap.run w mods = some w') (hno : ∀ op ∈ mods, op.target ≠ 0) : cellsOf w' 0 = cellsOf w 0 := by
+  obtain ⟨w2, hr, he⟩ := run_sim mods 0 w w w' rfl h
+  have : own 0 mods = [] := by
+    simp only [own, List.filter_eq_nil_iff]
+    intro op hop; simpa using hno op hop
+  rw [this] at hr
+  simp only [Heap.run, Option.some.injEq] at hr
+  subst hr; exact he
+
+/-- … nor any other returned object: what returned object `j` holds depends on the modifications
+    applied to `j` only, whatever was done to the others and to the table in between -/
+theorem returned_copies_independent (ops : List (Op V)) (j : Nat) (w w' : World V) (h : Heap.run w ops = some w') :
+    ∃ w'', Heap.run w (own j ops) = some w'' ∧ cellsOf w'' j = cellsOf w' j := by
+  obtain ⟨w2, hr, he⟩ := run_sim ops j w w w' rfl h
+  exact ⟨w2, hr, he.symm⟩
+
+/-- **the whole read**: a read (steps of the table: it may fill its caches), the birth of the
+    returned objects and any modifications of them leave the table as the read alone leaves it -/
+theorem read_then_modify (read rest : List (Op V)) (w w' : World V)
+    (hread : ∀ op ∈ read, op.target = 0) (hrest : ∀ op ∈ rest, op.target ≠ 0)
+    (h : Heap.run w (read ++ rest) = some w') :
+    ∃ w1, Heap.run w read = some w1 ∧ cellsOf w' 0 = cellsOf w1 0 := by
+  obtain ⟨w2, hr, he⟩ := run_sim (read ++ rest) 0 w w w' rfl h
+  have : own 0 (read ++ rest) = read := by
+    simp only [own, List.filter_append]
+    have h1 : read.filter (fun op => op.target == 0) = read := by
+      rw [List.filter_eq_self]; intro op hop; simpa using hread op hop
+    have h2 : rest.filter (fun op => op.target == 0) = [] := by
+      rw [List.filter_eq_nil_iff]; intro op hop; simpa using hrest op hop
+    rw [h1, h2, List.append_nil]
+  rw [this] at hr
+  exact ⟨w2, hr, he⟩
+
+/-- **until it is pushed back**: if the table's objects differ after a history, the history holds
+    a step applied to the table itself (a `set_…` call) -/
+theorem table_changes_only_by_table_steps (ops : List (Op V)) (w w' : World V)
+    (h : Heap.run w ops = some w') (hd : cellsOf w' 0 ≠ cellsOf w 0) : ∃ op ∈ ops, op.target = 0 := by
+  apply Classical.byContradiction
+  intro hc
+  exact hd (returned_copies_detached ops w w' h (fun op hop ht => hc ⟨op, hop, ht⟩))
+
+/-! non-vacuity: a table with three objects; a read fills a cache (alloc 0) and returns two rows
+    (owners 1, 2) born with two objects each; both are modified; the table is as after the read -/
+example :
+    let ops : List (Op Nat) := [.alloc 0 [10, 11, 12], .alloc 0 [13], .alloc 1 [20, 21], .alloc 2 [20, 21],
+                                .write 1 0 99, .write 2 1 77, .alloc 1 [5]]
+    (Heap.run [] ops).map (fun w => (cellsOf w 0, cellsOf w 1, cellsOf w 2)) = some ([10, 11, 12, 13], [99, 21, 5], [20, 77]) := by
+  decide +kernel
+/-- a live object handed out instead of a copy needs a step the model does not have: returned object 1
+    has one object, a write to a second one (the table's) is refused -/
+example : Heap.run ([] : World Nat) [.alloc 0 [10], .alloc 1 [10], .write 1 1 99] = none := by decide +kernel
+
+end heap
 
 /-! non-vacuity: a repeated run read from its last position -/
 example : rowTraverseRange (rowObj [(1, 1), (7, 3), (2, 1)]) 3 (some 4) = [(3, 7, none), (4, 2, none)] := by
